@@ -2,6 +2,7 @@ package rules
 
 import (
 	"fmt"
+	"go/types"
 	"strings"
 
 	"golang.org/x/tools/go/ssa"
@@ -400,79 +401,203 @@ func runC13(c *core.Ctx) {
 		return
 	}
 	c.Check(isParamTerm(chanCap(ctl), ops), "token-cap", name, s.Fn.Pos(), "make(chan, ops)", "control channel capacity is %s, expected the ops parameter", short(chanCap(ctl)))
+	c.Doc("out-capacity", 1, "the output channel has exactly the input's capacity (the bound 2*ops+1+c counts it)")
+	oc := chanCap(out)
+	c.Check(oc != nil && oc.Op == "cap" && isInputChan(oc.Args[0]), "out-capacity", name, s.Fn.Pos(), "cap(out) = cap(in)", "the output channel's capacity is %s, expected cap(in): a larger buffer lets more than 2*ops+1+c deliveries through in one window after a consumer pause", short(oc))
 
-	// pacer loops
-	var inner, outer *ssa.BasicBlock
+	// pacer: a counter automaton. The counter is the loop-carried integer that is 0 whenever a cycle starts;
+	// a token is sent only under counter < ops and bumps the counter by one; the interval wait happens only
+	// under !(counter < ops) and the next cycle starts again from 0. Hence exactly ops tokens per wait.
+	okT, okW := true, true
+	whyT, whyW := "", ""
+	opsT := &ir.Term{Op: "param", Aux: ops.Name()}
+	type cnt struct {
+		h   *ssa.BasicBlock
+		phi *ssa.Phi
+		sym *ir.Term
+	}
+	var counters []cnt
 	for _, h := range pacer.An.Headers {
-		if countedLoop(pacer.An, h) != nil {
-			inner = h
-		} else {
-			outer = h
-		}
-	}
-	if inner == nil || outer == nil || len(pacer.An.Headers) != 2 {
-		c.Fail("tokens-per-cycle", name, pacer.Fn.Pos(), "pacer is not an endless loop around a counted token loop")
-		return
-	}
-	il := countedLoop(pacer.An, inner)
-	okT := isParamTerm(il.Trip, ops)
-	whyT := "the token loop runs " + short(il.Trip) + " times, expected exactly ops"
-	for _, p := range pacer.An.Segs[inner] {
-		sends := allSends(p)
-		if p.To == inner {
-			if !(len(sends) == 1 && ir.Same(sends[0].ch, ctl) && sends[0].step.Kind == ir.KSelect) {
-				okT, whyT = false, "an iteration of the token loop does not perform exactly one cancellable token send"
+		for _, in := range h.Instrs {
+			phi, isPhi := in.(*ssa.Phi)
+			if !isPhi {
+				break
 			}
-		} else if len(sends) != 0 {
-			okT, whyT = false, "token sent outside the counted loop"
+			if bt, isB := phi.Type().Underlying().(*types.Basic); isB && bt.Info()&types.IsInteger != 0 {
+				counters = append(counters, cnt{h, phi, pacer.An.Start[h].Reg(phi)})
+			}
 		}
 	}
-	for _, p := range append(append([]*ir.Path{}, pacer.An.Segs[nil]...), pacer.An.Segs[outer]...) {
-		if len(allSends(p)) != 0 {
-			okT, whyT = false, "token sent outside the counted loop"
-		}
+	if len(counters) != 1 {
+		okT, whyT = false, fmt.Sprintf("the pacer has %d loop-carried integer counters, expected the token counter alone", len(counters))
 	}
-	c.Check(okT, "tokens-per-cycle", name, pacer.Fn.Pos(), "for i := 0; i < ops; i++ { select { ctl <- token | done } }", "%s", whyT)
-
-	// one wait per cycle: every path that closes a cycle of the outer loop (inner -> outer) has exactly one recv-arm on time.After(interval)
-	okW, whyW := true, ""
-	nCycle := 0
-	waitOn := func(p *ir.Path) int {
-		n := 0
-		for _, st := range p.Events(ir.KSelect) {
-			if st.Chosen >= 0 && !st.Arms[st.Chosen].Send && isTimeAfter(st.Arms[st.Chosen].Chan) {
-				_, _, args, _ := callParts(st.Arms[st.Chosen].Chan)
-				if len(args) == 1 && isParamTerm(args[0], interval) {
-					n++
-				} else {
-					okW, whyW = false, "time.After is called with "+short(args[0])+", expected the interval parameter"
+	nTok, nWait := 0, 0
+	if okT {
+		k := counters[0]
+		// guardAt: polarity of the branch (sym+d < ops) on path p, searched in steps [from, to)
+		guardAt := func(p *ir.Path, base *ir.Term, d int64, from, to int) int {
+			for i := from; i < to && i < len(p.Steps); i++ {
+				st := &p.Steps[i]
+				if st.Kind != ir.KBranch {
+					continue
+				}
+				at := st.Atom
+				if at.Op == "bin" && at.Aux == "<" && ir.Same(at.Args[1], opsT) {
+					if base == nil {
+						if v, isK := at.Args[0].IntConst(); isK && v == d {
+							return polInt(st.Pol)
+						}
+					} else if dd, isK := plusConst(at.Args[0], base); isK && dd == d {
+						return polInt(st.Pol)
+					}
+				}
+			}
+			return 0
+		}
+		// arrival guard: every way into the counter's loop established (incoming counter < ops)
+		arrivalGuard := true
+		for _, ps := range pacer.An.Segs {
+			for _, q := range ps {
+				if q.To != k.h {
+					continue
+				}
+				v := q.PhiOut[k.phi]
+				g := 0
+				if cv, isK := v.IntConst(); isK {
+					g = guardAt(q, nil, cv, 0, len(q.Steps))
+				} else if q.From == k.h {
+					if d, isK := plusConst(v, k.sym); isK {
+						g = guardAt(q, k.sym, d, 0, len(q.Steps))
+					}
+				}
+				if g <= 0 {
+					arrivalGuard = false
 				}
 			}
 		}
-		return n
-	}
-	for _, p := range pacer.An.Segs[inner] {
-		if p.To == outer {
-			nCycle++
-			if waitOn(p) != 1 {
-				okW, whyW = false, "a cycle of the pacer does not wait exactly once for time.After(interval)"
+		for _, h := range pacer.An.Headers {
+			for _, p := range pacer.An.Segs[h] {
+				// events of the segment: token sends and interval waits, with their positions
+				var sendIdx []int
+				waitIdx, afterIdx := -1, -1
+				var afterCh *ir.Term
+				for i := range p.Steps {
+					st := &p.Steps[i]
+					if st.Kind == ir.KSend {
+						okT, whyT = false, "a token is sent with a plain (uncancellable) send"
+					}
+					if st.Kind == ir.KSelect && st.Chosen >= 0 {
+						arm := st.Arms[st.Chosen]
+						if arm.Send {
+							if !ir.Same(arm.Chan, ctl) {
+								okT, whyT = false, "the pacer sends on something other than the control channel"
+							}
+							sendIdx = append(sendIdx, i)
+						} else if isTimeAfter(arm.Chan) {
+							if waitIdx >= 0 {
+								okW, whyW = false, "more than one interval wait on a path"
+							}
+							waitIdx, afterCh = i, arm.Chan
+							_, _, args, _ := callParts(arm.Chan)
+							if len(args) != 1 || !isParamTerm(args[0], interval) {
+								okW, whyW = false, "time.After is called with "+short(args[0])+", expected the interval parameter"
+							}
+						}
+					}
+				}
+				if afterCh != nil {
+					for i := range p.Steps {
+						if p.Steps[i].Kind == ir.KCall && p.Steps[i].R != nil && ir.Same(p.Steps[i].R, afterCh) {
+							afterIdx = i
+						}
+					}
+				}
+				t := int64(len(sendIdx))
+				var base *ir.Term
+				if h == k.h {
+					base = k.sym
+				}
+				if t > 1 {
+					okT, whyT = false, "more than one token is sent between two tests of the counter"
+				}
+				if t == 1 {
+					nTok++
+					if h != k.h {
+						okT, whyT = false, "a token is sent outside the loop that counts tokens"
+					} else if g := guardAt(p, k.sym, 0, 0, sendIdx[0]); g <= 0 && !arrivalGuard {
+						okT, whyT = false, "a token is sent without having established counter < ops"
+					}
+				}
+				if waitIdx >= 0 {
+					nWait++
+					from := 0
+					if t == 1 {
+						from = sendIdx[0]
+					}
+					if g := guardAt(p, base, t, from, waitIdx); g >= 0 {
+						okW, whyW = false, "the interval wait is reachable before the counter reached ops (fewer than ops tokens per interval)"
+					}
+					if t == 1 && waitIdx < sendIdx[0] {
+						okW, whyW = false, "a token is sent after the interval wait on the same path"
+					}
+					// the timer is armed after this cycle's tokens, in the same pass
+					if afterIdx < 0 || (t == 1 && afterIdx < sendIdx[0]) {
+						okW, whyW = false, "the interval timer is not armed after the cycle's tokens were handed out (an idle period would let a further full round through at once)"
+					}
+				}
+				// counter update on returning to its loop
+				if p.To == k.h {
+					v := p.PhiOut[k.phi]
+					if waitIdx >= 0 {
+						if cv, isK := v.IntConst(); !isK || cv != 0 {
+							okW, whyW = false, "after the interval wait the token counter restarts from "+short(v)+", expected 0"
+						}
+					} else if h == k.h {
+						if d, isK := plusConst(v, k.sym); !isK || d != t {
+							okT, whyT = false, fmt.Sprintf("a pass that sent %d token(s) changes the counter by %d", t, d)
+						}
+					} else if cv, isK := v.IntConst(); !isK || cv != 0 {
+						okT, whyT = false, "a cycle starts with the token counter at "+short(v)+", expected 0"
+					}
+				}
 			}
-		} else if p.To == inner && waitOn(p) != 0 {
-			okW, whyW = false, "the pacer waits inside the token loop"
+		}
+		// the timer must not be armed anywhere else (e.g. at the top of the round)
+		for _, h := range append([]*ssa.BasicBlock{nil}, pacer.An.Headers...) {
+			for _, p := range pacer.An.Segs[h] {
+				for i := range p.Steps {
+					st := &p.Steps[i]
+					if st.Kind == ir.KCall && st.R != nil && isTimeAfter(st.R) {
+						used := false
+						for j := i + 1; j < len(p.Steps); j++ {
+							if p.Steps[j].Kind == ir.KSelect {
+								for _, a := range p.Steps[j].Arms {
+									if !a.Send && ir.Same(a.Chan, st.R) {
+										used = true
+									}
+								}
+								if !used || len(allSendsBetween(p, i, j)) > 0 {
+									okW, whyW = false, "the interval timer is armed before tokens are handed out or is not waited on at once"
+								}
+								break
+							}
+						}
+						if !used {
+							okW, whyW = false, "an interval timer is armed but not waited on in the same pass"
+						}
+					}
+				}
+			}
+		}
+		if nTok == 0 {
+			okT, whyT = false, "the pacer never sends a token"
+		}
+		if nWait == 0 {
+			okW, whyW = false, "the pacer never waits for the interval"
 		}
 	}
-	for _, p := range pacer.An.Segs[outer] {
-		if p.To == outer {
-			okW, whyW = false, "the pacer's outer loop can cycle without refilling tokens"
-		}
-		if waitOn(p) != 0 {
-			okW, whyW = false, "wait before the token loop"
-		}
-	}
-	if nCycle == 0 {
-		okW, whyW = false, "the pacer never completes a cycle"
-	}
-	c.Check(okW, "one-wait-per-cycle", name, pacer.Fn.Pos(), "select { <-time.After(interval) | done } once per cycle", "%s", whyW)
+	c.Check(okT, "tokens-per-cycle", name, pacer.Fn.Pos(), "token only under counter < ops, counter+1 each; cycles start at 0", "%s", whyT)
+	c.Check(okW && okT, "one-wait-per-cycle", name, pacer.Fn.Pos(), "interval wait only under !(counter < ops), then the counter restarts at 0", "%s %s", whyW, whyT)
 
 	// data goroutine
 	if len(data.An.Headers) != 1 {
@@ -521,4 +646,16 @@ func runC13(c *core.Ctx) {
 		}
 	}
 	stageLifecycleRules(c, s, lifecycleOpts{})
+}
+
+// allSendsBetween: sends (plain or chosen select arms) of path p strictly between steps i and j.
+func allSendsBetween(p *ir.Path, i, j int) []int {
+	var out []int
+	for x := i + 1; x < j && x < len(p.Steps); x++ {
+		st := &p.Steps[x]
+		if st.Kind == ir.KSend || st.Kind == ir.KSelect && st.Chosen >= 0 && st.Arms[st.Chosen].Send {
+			out = append(out, x)
+		}
+	}
+	return out
 }
